@@ -14,76 +14,214 @@ S = "routee_compass_core::algorithm::component::scc::"
 G = "routee_compass_core::model::network::graph::Graph::"
 
 
-def dfs_rule(ctx, fn, edges_fn, far_fn):
-    F = ctx.F
+DIRT = "routee_compass_core::algorithm::search::direction::Direction"
+TRUNC = r"Iterator>?::(take|skip|filter|step_by|rev|take_while|skip_while|filter_map)$"
+OK_UNIT = ("agg", "std::result::Result", "Ok", (("0", ("tuple", ())),))
+
+
+def _roles(body):
+    """parameters of a search function by type: graph, vertex, visited set, stack, (direction)"""
+    out = {}
+    for i in range(1, body.argc + 1):
+        ty = body.locals[i]["ty"]
+        r = None
+        if ty.endswith("graph::Graph") and ty.startswith("&"):
+            r = "g"
+        elif ty.startswith("&") and ty.endswith("vertex_id::VertexId"):
+            r = "v"
+        elif "HashSet<" in ty and ty.startswith("&mut"):
+            r = "vis"
+        elif ty.startswith("&mut std::vec::Vec<") and "VertexId" in ty:
+            r = "st"
+        elif ty.endswith("direction::Direction"):
+            r = "dir"
+        if r is None or r in out:
+            return None
+        out[r] = i
+    return out if {"g", "v", "vis", "st"} <= set(out) else None
+
+
+def _dfs_body(F, fn):
+    """the function that does the work of `fn`: itself, or the new helper it hands over to with a constant direction.
+    returns (body, roles, direction or None)"""
     b = F.need(S + fn)
-    tm = Terms(b)
+    known = known_functions()
+    if not b.natural_loops() and known:
+        with no_inline():
+            rt = clean(Terms(b).return_term())
+        if rt[0] == "call" and rt[1] in F.bodies and rt[1] not in known and "{closure" not in rt[1]:
+            h = F.bodies[rt[1]]
+            rh, rb = _roles(h), _roles(b)
+            if rh and rb and "dir" in rh and len(rt[2]) == h.argc:
+                okd = all(rt[2][rh[r] - 1] == ("arg", rb[r]) for r in ("g", "v", "vis", "st"))
+                d = rt[2][rh["dir"] - 1]
+                if okd and d[0] == "agg" and d[1] == DIRT:
+                    return h, rh, d[2]
+    return b, _roles(b), None
+
+
+def _resolve(F, t, direct, generic, g, x, direction, dirarg):
+    """t is `direct`(g, x), or `generic`(g, x, dir) which under the known direction evaluates to it"""
+    if t == ("call", G + direct, (g, x)):
+        return True
+    if direction is not None and t == ("call", G + generic, (g, x, dirarg)):
+        v = spec_eval(F, F.need(G + generic), {3: direction})
+        return v == ("call", G + direct, (("arg", 1), ("arg", 2)))
+    return False
+
+
+def dfs_rule(ctx, fn, edges_fn, far_fn):
+    """the search read as: `if vertex is new { mark; for every incident edge: recurse into its far end; push vertex }`,
+    in whichever spelling (early return or guarded block, contains+insert or insert's result, loop or try_for_each, own body or
+    a direction-parameterised helper)"""
+    F = ctx.F
     name = fn
-    cont = [c for c in b.calls() if c.callee and c.callee.startswith("std::collections::HashSet::<T, S, A>::contains")]
-    ins = [c for c in b.calls() if c.callee and c.callee.startswith("std::collections::HashSet::<T, S, A>::insert")]
-    rec = b.calls_to(S + fn)
-    push = [c for c in b.calls() if c.callee and c.callee.startswith("std::vec::Vec::<T, A>::push")]
-    edges = b.calls_to(G + edges_fn)
-    far = b.calls_to(G + far_fn)
-    ok = len(cont) == len(ins) == len(rec) == len(push) == len(edges) == len(far) == 1
-    ctx.check(ok, name + ":shape", "expected one visited test, visited insert, recursion, stack push, %s and %s call (found %s)" % (edges_fn, far_fn, [len(x) for x in (cont, ins, rec, push, edges, far)]), b.where())
-    if not ok:
+    b, roles, direction = _dfs_body(F, fn)
+    if not ctx.check(roles is not None, name + ":shape", "the search does not take (graph, vertex, visited set, stack)", b.where()):
         return
-    cont, ins, rec, push, edges, far = cont[0], ins[0], rec[0], push[0], edges[0], far[0]
-    a = lambda c, i: unmut(nosite(deep_strip(tm.operand(c.args[i], c.bb))))
-    # direction pairing
-    ctx.check(a(edges, 0) == ("arg", 1) and a(edges, 1) == ("arg", 2), name + ":incident-edges", "incident edges are not %s(graph, vertex)" % edges_fn, edges.where(), detail="%s(vertex)" % edges_fn)
-    nx = [c for c in b.calls() if c.func.get("method") == "next"]
-    item = unmut(nosite(deep_strip(tm.call_term(nx[0].term, nx[0].bb)))) if len(nx) == 1 else None
-    ctx.check(item is not None and a(far, 1) == item and contains(item, lambda s: s[0] == "call" and s[1] == G + edges_fn), name + ":far-end", "the far end is not %s(edge) of each incident edge" % far_fn, far.where(), detail="%s(edge)" % far_fn)
-    farv = unmut(nosite(strip_try(deep_strip(tm.call_term(far.term, far.bb)))))
-    ctx.check(a(rec, 1) == farv and a(rec, 0) == ("arg", 1) and a(rec, 2) == ("arg", 3) and a(rec, 3) == ("arg", 4), name + ":recursion", "recursion is not on (graph, far end, same visited set, same stack)", rec.where(), detail="dfs(far end)")
-    for c, what in ((far, "far-end lookup"), (rec, "recursion")):
-        ctx.check(try_propagation(b, c, tm)["kind"] == "propagated", name + ":err:" + what.split()[0], "Err of the %s is not propagated" % what, c.where())
-    # every incident edge: loop without early normal exit
-    lp = innermost_loop(b, rec.bb)
-    okl = lp is not None and nx and nx[0].bb in lp[1]
-    if okl:
-        recv = deep_strip(tm.operand(nx[0].args[0], nx[0].bb))
-        okl = not [x for x in calls_in(recv) if re.search(r"Iterator>?::(take|skip|filter|step_by|rev)$", x[1])]
-        nxt = tm.call_term(nx[0].term, nx[0].bb)
+    if direction is not None:
+        want = "Forward" if edges_fn == "out_edges" else "Reverse"
+        if not ctx.check(direction == want, name + ":direction", "%s hands over to the shared search with Direction::%s" % (fn, direction), b.where(), detail=want):
+            return
+    tm = Terms(b)
+    A = {r: ("arg", i) for r, i in roles.items()}
+    g, v, vis, st, dirarg = A["g"], A["v"], A["vis"], A["st"], A.get("dir")
+    tree = tree_of(F, b.path)
+    iters_fn = edges_fn + "_iter"
+    gen_edges = ("incident_edges", "incident_edges_iter")
+    # -- the recursion site and the enumeration it sits in
+    recs = []
+    for body in tree:
+        for c in body.calls():
+            if c.callee in (b.path, S + fn):
+                recs.append((body, c))
+    if not ctx.check(len(recs) == 1, name + ":shape", "expected exactly one recursive call (found %d)" % len(recs), b.where()):
+        return
+    rbody, rec = recs[0]
+    rtm = tm if rbody is b else Terms(rbody)
+    edge = None       # the term of the incident edge being followed, in rbody's terms
+    enum_bb = None    # the block of `b` in which the enumeration is decided (loop head / try_for_each call)
+    lp = None
+    src = None
+    cap = lambda t: t
+    tfe = None
+    if rbody is b:
+        lp = innermost_loop(b, rec.bb)
+        if lp is not None:
+            rows = [r for r in iteration_table(b, lp[0]) if r.kind != "diverge"]
+            d0 = clean(rows[0].conds[0][0]) if rows and rows[0].conds else None
+            if d0 and d0[0] == "discr" and d0[1][0] == "call" and re.search(r"::next$", d0[1][1]) and all(r.conds and clean(r.conds[0][0]) == d0 for r in rows):
+                edge = d0[1]
+                src = d0[1][2][0]
+                enum_bb = lp[0]
+    else:
+        tf = [c for c in b.calls() if c.callee and itm(c.callee, "try_for_each")]
+        for c in tf:
+            cl = tm.operand(c.args[1], c.bb)
+            if cl[0] == "closure" and cl[1] == rbody.path and not rbody.natural_loops():
+                tfe = c
+                edge = ("arg", 2)
+                src = clean(tm.operand(c.args[0], c.bb))
+                enum_bb = c.bb
+                caps = [clean(x) for x in cl[2]]
+                cap = lambda t, caps=caps: rewrite(t, lambda y: caps[int(y[2])] if y[0] == "field" and y[1] == ("arg", 1) and str(y[2]).isdigit() and int(y[2]) < len(caps) else None)
+    if not ctx.check(edge is not None, name + ":all-incident-edges", "the recursion is not inside a loop (or try_for_each) over the incident edges", rec.where()):
+        return
+    while src[0] == "call" and len(src[2]) == 1 and re.search(r"::(into_iter|iter)$|Iterator>?::(copied|cloned)$", src[1]):
+        src = src[2][0]
+    ok_src = any(_resolve(F, src, d_, g_, g, v, direction, dirarg) for d_, g_ in ((edges_fn, gen_edges[0]), (iters_fn, gen_edges[1])))
+    ctx.check(ok_src, name + ":incident-edges", "incident edges are not %s(graph, vertex): %s" % (edges_fn, short(src)[:120]), b.where(enum_bb), detail="%s(vertex)" % edges_fn)
+    # -- far end and recursion arguments
+    ra = [cap(clean(rtm.operand(x, rec.bb))) for x in rec.args]
+    callee_roles = roles if rec.callee == b.path else _roles(F.need(S + fn))
+    far = ra[callee_roles["v"] - 1]
+    fars = [c for c in rbody.calls() if c.callee in (G + far_fn, G + "incident_vertex")]
+    okf = False
+    far_site = None
+    for c in fars:
+        ft = cap(clean(rtm.call_term(c.term, c.bb)))
+        if ft == far:
+            far_site = c
+            ee = cap(edge) if rbody is not b else edge
+            okf = _resolve(F, ft, far_fn, "incident_vertex", g, ee, direction, dirarg)
+    ctx.check(okf, name + ":far-end", "the far end is not %s(edge) of each incident edge" % far_fn, (far_site or rec).where(), detail="%s(edge)" % far_fn)
+    same = all(ra[callee_roles[r] - 1] == A[r] for r in ("g", "vis", "st")) and ("dir" not in callee_roles or ra[callee_roles["dir"] - 1] == dirarg)
+    ctx.check(okf and same, name + ":recursion", "recursion is not on (graph, far end, same visited set, same stack%s)" % (", same direction" if dirarg else ""), rec.where(), detail="dfs(far end)")
+    # -- errors leave the function
+    def leaves(body, c, btm):
+        pr = try_propagation(body, c, btm)
+        return pr["kind"] in ("propagated", "returned") or error_flow(F, body, c, btm).get("ok")
+    for c, what in ((far_site, "far-end lookup"), (rec, "recursion")):
+        okc = c is not None and leaves(rbody, c, rtm) and (tfe is None or try_propagation(b, tfe, tm)["kind"] in ("propagated", "returned"))
+        ctx.check(okc, name + ":err:" + what.split()[0], "Err of the %s is not propagated" % what, (c or rec).where())
+    # -- every incident edge
+    okl = not [x for x in calls_in(edge if rbody is b else clean(tm.operand(tfe.args[0], tfe.bb))) if re.search(TRUNC, x[1])]
+    if rbody is b:
+        nxt_raw = None
         for (x, y) in loop_exit_edges(b, lp[1]):
             vals = region_value(b, (x, y))
-            if vals and all(is_err_value(deep_strip(v)) for _, v in vals):
+            if vals and all(is_err_value(deep_strip(v_)) for _, v_ in vals):
                 continue
             t = b.blocks[x]["term"]
             good = False
             if t["k"] == "switch":
                 d, names = switch_discr_info(b, x)
-                if names and tm.operand(d, x) == ("discr", nxt) and switch_target(t, names, "None") == y:
+                if names and clean(tm.operand(d, x)) == ("discr", edge) and switch_target(t, names, "None") == y:
                     good = True
             okl = okl and good
-    ctx.check(bool(okl), name + ":all-incident-edges", "the loop over incident edges can end before all edges were followed", b.where())
-    # order: visited test first; insert before recursion; push after the loop
-    ctx.check(b.dominates(cont.bb, ins.bb) and b.dominates(cont.bb, rec.bb), name + ":visited-test-first", "the visited test does not come first", cont.where())
-    ctx.check(a(cont, 0) == ("arg", 3) and a(cont, 1) == ("arg", 2) and a(ins, 0) == ("arg", 3) and a(ins, 1) == ("arg", 2), name + ":visited-args", "visited test/insert are not on (visited, vertex)", ins.where())
-    ctx.check(b.dominates(ins.bb, rec.bb) and ins.bb not in b.reachable(start=rec.bb), name + ":mark-before-recursion", "the vertex is not marked visited before the recursion", ins.where())
-    post = lp is not None and push.bb not in lp[1] and b.dominates(nx[0].bb, push.bb) if nx else False
-    ctx.check(post and a(push, 0) == ("arg", 4) and a(push, 1) == ("arg", 2), name + ":post-order-push", "the vertex is not pushed on the stack after all incident edges were followed (post-order)", push.where(), detail="push after loop")
-    # visited => return Ok without push; not visited => every Ok return passes the push
-    verdict = nosite(deep_strip(tm.call_term(cont.term, cont.bb)))
-    sw = None
+    else:
+        # the closure's only ways out are the recursion's own result and a propagated error
+        rows = [r for r in table(rbody, max_paths=5000) if r.end == "return"]
+        rect = clean(rtm.call_term(rec.term, rec.bb))
+        okl = okl and bool(rows) and all(clean(r.ret) == rect or is_err_value(deep_strip(r.ret)) or result_variant(r.ret) == "Err" or (result_variant(r.ret) == "Ok" and any(clean(k) == rect for k in r.sel)) for r in rows)
+    ctx.check(bool(okl), name + ":all-incident-edges", "the loop over incident edges can end before all edges were followed", b.where(enum_bb))
+    # -- new vertices only: the guard
+    cont = [c for c in b.calls() if c.callee and c.callee.startswith("std::collections::HashSet::<T, S, A>::contains")]
+    ins = [c for c in b.calls() if c.callee and c.callee.startswith("std::collections::HashSet::<T, S, A>::insert")]
+    push = [c for c in b.calls() if c.callee and c.callee.startswith("std::vec::Vec::<T, A>::push")]
+    a = lambda c, i_: clean(tm.operand(c.args[i_], c.bb))
+    ok_args = len(ins) == 1 and a(ins[0], 0) == vis and a(ins[0], 1) == v and all(a(c, 0) == vis and a(c, 1) == v for c in cont) and len(cont) <= 1
+    ctx.check(ok_args, name + ":visited-args", "visited test/insert are not on (visited, vertex)", (ins[0] if ins else b).where() if ins else b.where())
+    if not ok_args or not ctx.check(len(push) == 1, name + ":shape", "expected exactly one push onto the stack (found %d)" % len(push), b.where()):
+        return
+    ins, push = ins[0], push[0]
+    guard = None
     for sbb, dt, names, t in switches(b, tm):
-        if nosite(deep_strip(dt)) == verdict:
-            sw = (sbb,) + bool_targets(t)
-    okv = sw is not None
-    if okv:
-        sbb, f, tr = sw
-        okv = push.bb not in b.reachable(start=tr) and ins.bb not in b.reachable(start=tr)
-        # on the not-visited side every block that sets the result to Ok(..) is reachable only through the push
-        ok_blocks = []
-        for bb, blk in enumerate(b.blocks):
-            for st in blk["stmts"]:
-                if st["k"] == "assign" and st["place"]["l"] == 0 and not st["place"]["p"] and st["rv"]["k"] == "agg" and st["rv"].get("variant") == "Ok":
-                    ok_blocks.append(bb)
-        fresh = b.reachable(start=f)
-        wo_push = b.reachable(start=f, removed_blocks=[push.bb])
-        okv = okv and bool(ok_blocks) and all(bb not in wo_push for bb in ok_blocks if bb in fresh) and any(bb in fresh for bb in ok_blocks)
+        if names is not None:
+            continue
+        d = clean(dt)
+        neg = False
+        while d[0] == "un" and d[1] == "Not":
+            d, neg = d[2], not neg
+        f_, tr_ = bool_targets(t)
+        if cont and d == clean(tm.call_term(cont[0].term, cont[0].bb)):
+            guard = (sbb, tr_, f_) if not neg else (sbb, f_, tr_)   # (switch, stale edge, fresh edge)
+        elif not cont and d == clean(tm.call_term(ins.term, ins.bb)):
+            guard = (sbb, f_, tr_) if not neg else (sbb, tr_, f_)
+    if not ctx.check(guard is not None and guard[1] is not None and guard[1] != guard[2], name + ":visited-test-first", "no test whether the vertex was visited before decides what the search does", b.where()):
+        return
+    gbb, stale, fresh = guard
+    ctx.check(b.dominates(gbb, enum_bb) and b.dominates(gbb, push.bb) and (cont == [] or b.dominates(gbb, ins.bb)), name + ":visited-test-first", "the visited test does not come first", b.where(gbb))
+    # marked before any recursion
+    okm = b.dominates(ins.bb, enum_bb) and ins.bb not in b.reachable(start=enum_bb) if ins.bb != enum_bb else False
+    ctx.check(okm, name + ":mark-before-recursion", "the vertex is not marked visited before the recursion", ins.where())
+    # post-order: the push comes after the enumeration has finished, once
+    post = b.dominates(enum_bb, push.bb) and (lp is None or push.bb not in lp[1]) and enum_bb not in b.reachable(start=push.bb) and push.bb != enum_bb
+    ctx.check(post and a(push, 0) == st and a(push, 1) == v, name + ":post-order-push", "the vertex is not pushed on the stack after all incident edges were followed (post-order)", push.where(), detail="push after loop")
+    # visited => Ok(()) and nothing else; new => every Ok return passes the push
+    stale_region = b.reachable(start=stale)
+    fresh_region = b.reachable(start=fresh)
+    okv = push.bb not in stale_region and enum_bb not in stale_region and (cont == [] or ins.bb not in stale_region)
+    vals = region_value(b, (gbb, stale))
+    okv = okv and bool(vals) and all(deep_strip(x) == OK_UNIT for _, x in vals)
+    ok_blocks = []
+    for bb, blk in enumerate(b.blocks):
+        for st_ in blk["stmts"]:
+            if st_["k"] == "assign" and st_["place"]["l"] == 0 and not st_["place"]["p"] and st_["rv"]["k"] == "agg" and st_["rv"].get("variant") == "Ok":
+                ok_blocks.append(bb)
+    wo_push = b.reachable(start=fresh, removed_blocks=[push.bb])
+    on_fresh = [bb for bb in ok_blocks if bb in fresh_region]
+    okv = okv and bool(on_fresh) and all(bb not in wo_push for bb in on_fresh)
     ctx.check(okv, name + ":push-on-every-fresh-path", "a vertex that was not visited before can return Ok without being pushed on the stack (it would appear in no component), or a visited vertex is pushed again", b.where(), detail="visited => Ok(()) ; fresh => ... push; Ok(())")
 
 
@@ -103,7 +241,7 @@ def R1_R2_dfs(ctx):
 def R2_passes(ctx):
     """C18.R2 the two passes"""
     F = ctx.F
-    ctx.rule("C18.R2", "all_strongly_connected_componenets: pass 1 over all vertex ids in one direction; visited cleared; pass 2 pops the finishing stack (LIFO), skips visited vertices, runs the other direction into a fresh component and pushes it once", floor=9)
+    ctx.rule("C18.R2", "all_strongly_connected_componenets: pass 1 over all vertex ids in one direction; visited cleared; pass 2 pops the finishing stack (LIFO), skips visited vertices, runs the other direction into a fresh component and pushes it once; Graph::vertex_ids yields VertexId(i) for every i in 0..n_vertices", floor=10)
     b = F.need(S + "all_strongly_connected_componenets")
     tm = Terms(b)
     fwd = b.calls_to(S + "depth_first_search")
@@ -126,35 +264,52 @@ def R2_passes(ctx):
         ok1 = contains(recv, lambda s: s[0] == "call" and s[1] == G + "vertex_ids") and not [x for x in calls_in(recv) if re.search(r"Iterator>?::(take|skip|filter|step_by)$", x[1])]
         ok1 = ok1 and a(p1, 1) == unmut(nosite(deep_strip(tm.call_term(nx1[0].term, nx1[0].bb))))
     ctx.check(ok1, "pass1:all-vertices", "pass 1 does not start a search from every vertex id", p1.where(), detail="for v in graph.vertex_ids()")
+    # and vertex_ids() is every id: VertexId(i) for i in 0..n_vertices
+    vb = F.need(G + "vertex_ids")
+    pf = positional_form(F, nosite(deep_strip(Terms(vb).return_term())))
+    okv = pf is not None and pf[0] == ("call", "routee_compass_core::model::network::vertex_id::VertexId", (("i",),)) and pf[1] == {("call", G + "n_vertices", (("arg", 1),))}
+    ctx.check(okv, "Graph::vertex_ids", "Graph::vertex_ids is not VertexId(i) for every i in 0..n_vertices: %s" % (short(pf[0])[:80] if pf else None), vb.where(), detail="(0..n_vertices).map(VertexId)")
     vis1, st1 = root_local(b, p1.args[2]), root_local(b, p1.args[3])
     vis2, comp = root_local(b, p2.args[2]), root_local(b, p2.args[3])
     # visited reset between passes: clear() on the same set (or a different, fresh set)
     clears = [c for c in b.calls() if c.callee and c.callee.startswith("std::collections::HashSet::<T, S, A>::clear")]
     reset = (vis1 != vis2) or any(root_local(b, c.args[0]) == vis1 and c.bb not in l1[1] and c.bb not in l2[1] and p2.bb in b.reachable(start=c.bb) and p1.bb not in b.reachable(start=c.bb) for c in clears)
     ctx.check(reset, "visited-reset", "the visited set is not reset between the passes", b.where(), detail="visited.clear()")
-    # pass 2 consumes the finishing stack LIFO
+    # pass 2 consumes the finishing stack LIFO: `while let Some(v) = stack.pop()` or `for v in stack.into_iter().rev()`
+    turn = None   # (block where a turn's root is produced, root term)
     pops = [c for c in b.calls() if c.callee and c.callee.startswith("std::vec::Vec::<T, A>::pop") and c.bb in l2[1]]
-    okp = len(pops) == 1 and root_local(b, pops[0].args[0]) == st1
-    if not okp:
-        # accept reverse iteration
-        nx2 = [c for c in b.calls() if c.func.get("method") == "next" and c.bb in l2[1]]
-        if nx2:
-            recv = deep_strip(tm.operand(nx2[0].args[0], nx2[0].bb))
-            okp = bool([x for x in calls_in(recv) if itm(x[1], "rev")])
+    if len(pops) == 1 and root_local(b, pops[0].args[0]) == st1:
+        turn = (pops[0].bb, clean(tm.call_term(pops[0].term, pops[0].bb)))
+    else:
+        nx2 = [c for c in b.calls() if c.func.get("method") == "next" and c.bb in l2[1] and innermost_loop(b, c.bb) == l2]
+        if len(nx2) == 1:
+            recv = clean(tm.operand(nx2[0].args[0], nx2[0].bb))
+            chain = [x[1] for x in calls_in(recv)]
+            revs = [n for n in chain if itm(n, "rev")]
+            stack_t = clean(tm.operand(p1.args[3], p1.bb))
+            if len(revs) == 1 and contains(recv, lambda q: q == stack_t) and not [n for n in chain if re.search(r"Iterator>?::(take|skip|filter|step_by|take_while|skip_while|filter_map)$", n)]:
+                turn = (nx2[0].bb, clean(tm.call_term(nx2[0].term, nx2[0].bb)))
+    okp = turn is not None
     ctx.check(okp, "pass2:lifo", "pass 2 does not consume the finishing stack last-in first-out", b.where(), detail="container.pop()")
-    if len(pops) == 1:
-        root = unmut(nosite(strip_try(deep_strip(tm.call_term(pops[0].term, pops[0].bb)))))
-        ctx.check(a(p2, 1) == root, "pass2:root", "pass 2 does not search from the popped vertex", p2.where())
+    if turn is not None:
+        tbb, root = turn
+        ctx.check(clean(tm.operand(p2.args[1], p2.bb)) == root, "pass2:root", "pass 2 does not search from the popped vertex", p2.where())
         # skip visited roots
         cont = [c for c in b.calls() if c.callee and c.callee.startswith("std::collections::HashSet::<T, S, A>::contains") and c.bb in l2[1]]
-        oks = len(cont) == 1 and root_local(b, cont[0].args[0]) == vis2 and b.dominates(cont[0].bb, p2.bb)
+        oks = len(cont) == 1 and root_local(b, cont[0].args[0]) == vis2 and b.dominates(cont[0].bb, p2.bb) and clean(tm.operand(cont[0].args[1], cont[0].bb)) == root
         if oks:
-            verdict = nosite(deep_strip(tm.call_term(cont[0].term, cont[0].bb)))
+            verdict = clean(tm.call_term(cont[0].term, cont[0].bb))
             oks = False
             for sbb, dt, names, t in switches(b, tm):
-                if nosite(deep_strip(dt)) == verdict:
+                d = clean(dt)
+                neg = False
+                while d[0] == "un" and d[1] == "Not":
+                    d, neg = d[2], not neg
+                if d == verdict and names is None:
                     f, tr = bool_targets(t)
-                    oks = p2.bb not in b.reachable(start=tr, removed_blocks=[pops[0].bb]) and p2.bb in b.reachable(start=f, removed_blocks=[pops[0].bb])
+                    if neg:
+                        f, tr = tr, f
+                    oks = p2.bb not in b.reachable(start=tr, removed_blocks=[tbb]) and p2.bb in b.reachable(start=f, removed_blocks=[tbb])
         ctx.check(oks, "pass2:skip-visited", "an already visited stack entry is not skipped before starting a component", b.where())
     # fresh component per root, pushed once
     news = [(bb, pos) for (bb, pos, proj) in b.defs.get(comp, []) if not proj]
@@ -179,52 +334,64 @@ def R3_largest(ctx):
     b = F.need(S + "largest_strongly_connected_component")
     tm = Terms(b)
     src = b.calls_to(S + "all_strongly_connected_componenets")
-    nx = [c for c in b.calls() if c.func.get("method") == "next"]
-    ok = len(src) == 1 and len(nx) == 1
-    if not ok:
-        ctx.bad("shape", "expected one component computation and one loop", b.where())
+    if len(src) != 1:
+        ctx.bad("shape", "expected one component computation", b.where())
         return
-    recv = deep_strip(tm.operand(nx[0].args[0], nx[0].bb))
-    comps = strip_try(deep_strip(tm.call_term(src[0].term, src[0].bb)))
-    ctx.check(contains(recv, lambda s: s == comps) and not [x for x in calls_in(recv) if re.search(r"Iterator>?::(take|skip|filter|step_by)$", x[1])], "over-all-components", "the loop does not range over all components", nx[0].where())
-    lp = innermost_loop(b, nx[0].bb)
-    # no early normal exit
-    okx = lp is not None
-    if okx:
-        nxt = tm.call_term(nx[0].term, nx[0].bb)
+    comps = clean(tm.call_term(src[0].term, src[0].bb))
+    ctx.check(try_propagation(b, src[0], tm)["kind"] in ("propagated", "returned"), "err:components", "Err of the component computation is not propagated", src[0].where())
+    sels = [x for x in selection_folds(b) if contains(x["src"], lambda q: q == comps)]
+    if not ctx.check(len(sels) == 1, "shape", "expected one selection over the components (a loop or fold that keeps either the best so far or the current component), found %d" % len(sels), b.where()):
+        return
+    sel = sels[0]
+    ctx.check(not [x for x in calls_in(sel["src"]) if re.search(r"Iterator>?::(take|skip|filter|step_by|take_while|skip_while|filter_map)$", x[1])], "over-all-components", "the selection does not range over all components", sel["where"])
+    # no early normal exit (loop form)
+    okx = True
+    if sel["form"] == "loop":
+        lp = [l_ for l_ in b.natural_loops() if l_[0] == sel["head"]][0]
         for (x, y) in loop_exit_edges(b, lp[1]):
             t = b.blocks[x]["term"]
             good = False
             if t["k"] == "switch":
                 d, names = switch_discr_info(b, x)
-                if names and tm.operand(d, x) == ("discr", nxt) and switch_target(t, names, "None") == y:
+                dd = clean(tm.operand(d, x))
+                if names and dd[0] == "discr" and dd[1][0] == "call" and re.search(r"::next$", dd[1][1]) and switch_target(t, names, "None") == y:
                     good = True
             vals = region_value(b, (x, y))
             if vals and all(is_err_value(deep_strip(v)) for _, v in vals):
                 good = True
             okx = okx and good
     ctx.check(bool(okx), "no-early-exit", "the selection loop can stop before all components were compared", b.where())
-    # comparison: len(component) > len(best)  (or >=)
-    item = unmut(nosite(deep_strip(tm.call_term(nx[0].term, nx[0].bb))))
-    cmps = []
-    for sbb, dt, names, t in switches(b, tm):
-        c = as_cmp(deep_strip(dt))
-        if c and lp and sbb in lp[1]:
-            cmps.append((sbb, canon_cmp((c[0], unmut(nosite(c[1])), unmut(nosite(c[2])))), t))
-    okc = len(cmps) == 1
-    if okc:
-        sbb, c, t = cmps[0]
-        ln = lambda x: x[0] == "call" and x[1].endswith("::len")
-        okc = c[0] in ("Lt", "Le") and ln(c[1]) and ln(c[2]) and c[2][2][0] == item and c[1] != c[2]
-        ctx.check(okc, "greater-size", "the best component is not replaced on `component.len() > best.len()`: %s" % short(("bin",) + c)[:200], b.where(sbb), detail=short(("bin",) + c)[:120])
-        # the returned vector is the one compared as `best`
+    # each step keeps a component of the greater size
+    ln = lambda x: ("call", "std::vec::Vec::<T, A>::len", (x,))
+    ACC, ELEM = ("acc",), ("elem",)
+    n_e = n_a = 0
+    okc = True
+    why = ""
+    for facts, ch in sel["cases"]:
+        if ch == "elem":
+            n_e += 1
+            if not implies(facts, ("Le", ln(ACC), ln(ELEM))):
+                okc, why = False, "a component replaces the best although it is not known to be at least as large: %s" % sorted((op, short(a_)[:40], short(b_)[:40]) for op, a_, b_ in facts)
+        else:
+            n_a += 1
+            if not implies(facts, ("Le", ln(ELEM), ln(ACC))):
+                okc, why = False, "the best is kept although the component is not known to be at most as large: %s" % sorted((op, short(a_)[:40], short(b_)[:40]) for op, a_, b_ in facts)
+    okc = okc and n_e >= 1 and n_a >= 1
+    ctx.check(okc, "greater-size", "the best component is not replaced on `component.len() > best.len()`: %s" % why, sel["where"], detail="len(component) > len(best) => best = component")
+    seed_ok = sel["seed"][0] == "call" and re.search(r"Vec::<T>::new$|Default>::default$", sel["seed"][1]) is not None
+    ctx.check(seed_ok, "starts-empty", "the selection does not start from an empty component: %s" % short(sel["seed"])[:80], sel["where"], detail="Vec::new()")
+    # the result is the selected component
+    okb = False
+    if sel["form"] == "fold":
         rt = tm.return_term()
         oks_ = [x for x in (rt[1] if rt[0] == "phi" else [rt]) if result_variant(x) == "Ok"]
-        best = c[1][2][0]
-        okb = len(oks_) == 1 and loopfree(unmut(nosite(deep_strip(agg_payload(oks_[0]))))) == loopfree(best)
-        ctx.check(okb, "returns-best", "the returned component is not the one maintained as best", b.where())
+        okb = len(oks_) == 1 and clean(agg_payload(oks_[0])) == sel["result"]
     else:
-        ctx.bad("greater-size", "expected one size comparison in the loop, found %d" % len(cmps), b.where())
+        for bb, blk in enumerate(b.blocks):
+            for st_ in blk["stmts"]:
+                if st_["k"] == "assign" and st_["place"]["l"] == 0 and not st_["place"]["p"] and st_["rv"]["k"] == "agg" and st_["rv"].get("variant") == "Ok" and not blk["cleanup"]:
+                    okb = root_local(b, st_["rv"]["fields"][0]) == sel["local"]
+    ctx.check(okb, "returns-best", "the returned component is not the one maintained as best", b.where())
 
 
 def R_graph_roles(ctx):
